@@ -231,7 +231,19 @@ def screen_case(f):
                 except Exception:
                     o['idem'] = False
             o['idemwarn'] = any(issubclass(x.category, AmpycloudWarning) and str(x.message).startswith('Column') for x in w2)
-    return {'f': f, 'res': res, 'exc': exc, 'o': o}
+    # "... (and therefore chunk construction) raises exactly when ...": with no MSA and with an MSA below every height
+    cons = []
+    from ampycloud.data import CeiloChunk
+    for msa in (None, 50):
+        arg2 = _build_screen_obj(f)
+        try:
+            with warnings.catch_warnings():
+                warnings.simplefilter('ignore')
+                CeiloChunk(arg2, prms={'MSA': msa, 'MSA_HIT_BUFFER': 0})
+            cons.append({'msa': -1 if msa is None else msa, 'res': 'ok', 'exc': ''})
+        except Exception as e:
+            cons.append({'msa': -1 if msa is None else msa, 'res': 'exc', 'exc': type(e).__name__})
+    return {'f': f, 'res': res, 'exc': exc, 'o': o, 'cons': cons}
 
 
 # ------------------------------------------------------------------------------------------------
@@ -311,3 +323,16 @@ def mock_case(seed):
     dig = lambda d: zlib.crc32(d.to_csv().encode()) & 0x3fffffff
     import math
     return {'rows': rows, 'nce': nce, 'npts': int(math.ceil(lookback / gap)), 'digest': dig(df), 'digest2': dig(df2)}
+
+
+def gmm_direct(seed):
+    """ layer.ncomp_from_gmm on a fixed two-level sample with an explicit random_seed: digest of the outcome """
+    import zlib
+    from ampycloud import layer
+    rs = np.random.RandomState(12345)
+    vals = np.concatenate([rs.normal(1000, 30, 60), rs.normal(1400, 30, 50), rs.normal(1750, 25, 40)]).round()
+    with warnings.catch_warnings():
+        warnings.simplefilter('ignore')
+        n, ids, _ = layer.ncomp_from_gmm(vals, ncomp_max=3, min_sep=100, random_seed=int(seed), scores='BIC', rescale_0_to_x=100,
+                                         mode='delta', delta_mul_gain=0.95)
+    return zlib.crc32(bytes([int(n)]) + np.asarray(ids, dtype=np.int64).tobytes()) & 0x3fffffff
